@@ -16,6 +16,35 @@
 EXTENDS GeomModel
 
 FMAXHZ == 5000000           \* soundevent.data.MAX_FREQUENCY
+
+(***************************************************************************)
+(* Numbers.  In a "lit" case a number token IS the value (seconds / hertz).*)
+(* In a "fine" case it is a CODE for a non-integer double: validity and    *)
+(* normal forms are order facts (comparisons with 0, with MAX_FREQUENCY    *)
+(* and between times), so any strictly increasing coding that keeps        *)
+(* 0 |-> 0.0 and FMAXHZ |-> 5000000.0 leaves Valid / Normal / Impl as they *)
+(* are.  FineTable is that coding (code, decimal literal), exported with   *)
+(* every fine case; the binder parses the literals, checks that they       *)
+(* increase strictly, and maps results back to codes by exact equality.    *)
+(* The values: many-bit dyadic fractions, decimals that need more than six *)
+(* digits, two times that differ in the seventh decimal only, and values a *)
+(* hair inside / outside the frequency ceiling.                            *)
+(***************************************************************************)
+FineTable == << <<-1, "-0.00000095367431640625">>,            \* -2^-20
+                <<0, "0.0">>,
+                <<1, "0.00000095367431640625">>,              \* 2^-20
+                <<2, "0.123456789">>,
+                <<3, "1.0">>,
+                <<4, "1.000000000931322574615478515625">>,    \* 1 + 2^-30
+                <<5, "1.0000001">>,
+                <<6, "1.0000004">>,
+                <<7, "2.5">>,
+                <<4999999, "4999999.9999999">>,               \* MAX_FREQUENCY - 1e-7
+                <<5000000, "5000000.0">>,
+                <<5000001, "5000000.0000001">> >>             \* MAX_FREQUENCY + 1e-7
+FineCodes == {FineTable[i][1] : i \in DOMAIN FineTable}
+FineTableOK == /\ \A i \in 1..(Len(FineTable) - 1) : FineTable[i][1] < FineTable[i + 1][1]     \* listed in increasing order
+               /\ <<0, "0.0">> \in Range(FineTable) /\ <<FMAXHZ, "5000000.0">> \in Range(FineTable)
 OPEN   == -98
 CLOSE  == -99
 IsNum(t) == t # OPEN /\ t # CLOSE
@@ -193,7 +222,8 @@ Impl(k, s) == LET t == TypeLayer(k, s) IN
               IF ~a.ok \/ ~HasV2(k) THEN a ELSE V2(k, a.val)
 
 (***************************************************************************)
-(* Acceptance of one observation.  o.in = [kind, toks, c]; o.out.runs is a *)
+(* Acceptance of one observation.  o.in = [kind, toks, c, num, vals]        *)
+(* (num = "lit" | "fine", vals = FineTable for a fine case); o.out.runs is a *)
 (* sequence, one record per (entry point, number rendering):               *)
 (*   [entry, num, res: "ok" (a geometry object came back) | "raise" |      *)
 (*    "other" (something else came back), exc: class name, verr: BOOLEAN   *)
